@@ -7,7 +7,8 @@ from concurrent.futures import ProcessPoolExecutor
 import lib
 
 LETTERS = "abcxyzQRS"
-NONASCII = ["é", "ß", "漢", "🙂", "ñ", "Ω"]
+# (incl. characters a Unicode normalisation would replace: OHM SIGN, KELVIN SIGN, a CJK compatibility ideograph, e + combining acute)
+NONASCII = ["é", "ß", "漢", "🙂", "ñ", "Ω", "\u2126", "\u212a", "\uf900", "e\u0301"]
 
 
 def conc_chars(seq, rng):
@@ -213,7 +214,7 @@ def big_file_case(run):
         parts = ["#" + "x" * shift + "\n"]
         want = {}
         for i in range(60):
-            ch = ["🙂", "漢", "é", "𝔘"][i % 4]
+            ch = ["🙂", "漢", "é", "𝔘", "\u2126", "\uf900"][i % 6]      # the last two are not stable under Unicode normalisation
             line = "w%d " % i + ch * (330 + i)        # about 1 KiB of multi-byte characters per line
             want["big_%d(" % i] = line
             parts.append("#[[[\n# %s\n#]]\nfunction(big_%d a)\nendfunction()\n" % (line, i))
